@@ -46,7 +46,11 @@ theorem all_correct {G : GCtx} (ok : G.OK) : ∀ fuel, StmtSpec G fuel ∧ StmtL
           have : optStmt (annotS G.rho (.ret e)) = .ret (optExpr (annotate G.rho e)) := by
             simp [annotS, optStmt]
           rw [this]
-          rcases hok with (hpure | hcall) | ⟨hpk, hpp⟩
+          rcases hok with ((hpure | hcall) | ⟨hpk, hpp⟩) | hip
+          rotate_left 3
+          · apply execS_retE (KOf G pi sp dep hi) _ wf F e _ σ
+            intro st _
+            exact (expr_ip_correct ok hpi sp dep hi hlo hspv hstack F hcsF e F (Nat.le_refl _) st hip).toE
           rotate_left 2
           · apply execS_retE (KOf G pi sp dep hi) _ wf F e _ σ
             intro st _
@@ -63,7 +67,11 @@ theorem all_correct {G : GCtx} (ok : G.OK) : ∀ fuel, StmtSpec G fuel ∧ StmtL
           have : optStmt (annotS G.rho (.assign n e)) = .assign n (optExpr (annotate G.rho e)) := by
             simp [annotS, optStmt]
           rw [this]
-          rcases hok with (hpure | hcall) | ⟨hpk, hpp⟩
+          rcases hok with ((hpure | hcall) | ⟨hpk, hpp⟩) | hip
+          rotate_left 3
+          · apply execS_assignE (KOf G pi sp dep hi) _ wf F n e _ σ
+            intro st _
+            exact (expr_ip_correct ok hpi sp dep hi hlo hspv hstack F hcsF e F (Nat.le_refl _) st hip).toE
           rotate_left 2
           · apply execS_assignE (KOf G pi sp dep hi) _ wf F n e _ σ
             intro st _
